@@ -9,7 +9,7 @@ CONSTANTS
                 "where_clause", "macro_item", "empty_file_marker",
                 "generic_tree", "generic_enum_two_selfrefs", "mutual_generic_twice", "generic_list", "nonascii_enum_name", "nonascii_struct_name",
                 "dangling_symlink", "symlink_loop_dir", "dir_named_rs",
-                "config_is_dir", "config_is_dir_in_parent", "config_empty", "config_invalid", "config_symlink_loop", "config_dangling_link"}
+                "config_is_dir", "config_is_dir_in_parent", "config_empty", "config_invalid", "config_symlink_loop", "config_dangling_link", "config_odd_values"}
   Packages = {"given", "none"}
   Langs = {"typescript", "kotlin", "swift", "scala", "go", "python"}
   Modes = {"single", "multi"}
